@@ -459,8 +459,10 @@ class WfGen:
                 o = {"type": arr(t), "src": srcs, "list": True, "lm": "merge_nested", "pv": None}
             elif q < 0.5 and is_arr(t):
                 o = {"type": t, "src": srcs, "list": True, "lm": "merge_flattened", "pv": None}
-            elif q < 0.5:
+            elif q < 0.5 and not (is_opt(t) and is_arr(t["opt"])):
                 o = {"type": arr(t), "src": srcs, "list": True, "lm": "merge_flattened", "pv": None}
+            elif q < 0.5:   # an optional array cannot be flattened into a typed sink (cwltool rejects the document)
+                o = {"type": arr(t), "src": srcs, "list": True, "lm": "merge_nested", "pv": None}
             elif is_opt(t):
                 pv = rng.choice(["first_non_null", "the_only_non_null", "all_non_null"])
                 o = {"type": arr(t["opt"]) if pv == "all_non_null" else t["opt"], "src": srcs, "list": True,
